@@ -12,7 +12,8 @@
 (* them rather than against itself:                                        *)
 (*   Conservation  - every byte is consumed exactly once and in order,     *)
 (*                   unless an action says otherwise (C08, C11)            *)
-(*   LinenoExact   - yylineno = 1 + newlines consumed - newlines unput     *)
+(*   LinenoExact   - yylineno = 1 (or what the user set) + newlines consumed *)
+(*                   since - newlines unput                                *)
 (*   LongestFirst  - the token is the longest match of the first rule (C01)*)
 (*   ScOnly        - the start condition changes only by begin/push/pop    *)
 (*   StackLIFO     - push/pop is a stack                                   *)
@@ -48,57 +49,62 @@ VARIABLES orig,    \* the byte stream as edited so far (yyunput inserts)
           done,    \* bytes consumed for good (tokens whose action has ended, yyinput)
           eatenb,  \* bytes taken by yyinput in the current action
           unl,     \* newlines pushed back by yyunput
+          lbase,   \* the line number the user last set, less the newlines consumed (net) until then (initially 1)
           nops,    \* operations made so far (bound)
           last     \* name of the last action
-gvars == <<orig, done, eatenb, unl, nops, last>>
+gvars == <<orig, done, eatenb, unl, lbase, nops, last>>
 allvars == <<svars, gvars>>
 
 Opt(inter, rej) == [interactive |-> inter, array |-> FALSE, lno |-> TRUE, bolneeded |-> TRUE, rejectmode |-> rej, bufsize |-> 0,
                     strictread |-> TRUE, reentrant |-> FALSE, userwrap |-> FALSE, failalloc |-> 0, stdio |-> FALSE, yylmax |-> 8192]
 
-MInit == /\ SInit /\ orig = <<>> /\ done = <<>> /\ eatenb = <<>> /\ unl = 0 /\ nops = 0 /\ last = "init"
+MInit == /\ SInit /\ orig = <<>> /\ done = <<>> /\ eatenb = <<>> /\ unl = 0 /\ lbase = 1 /\ nops = 0 /\ last = "init"
 
 G(name) == last' = name /\ nops' = nops + 1
-Keep == UNCHANGED <<orig, done, eatenb, unl>>
+Keep == UNCHANGED <<orig, done, eatenb, unl, lbase>>
 New(t) == SubSeq(t, Len(pfx) + 1, Len(t))      \* the part of yytext matched by the current token
 
 MStart == /\ phase = "done" /\ nops = 0
           /\ \E w \in Inputs, inter \in BOOLEAN : Reset(1, <<w>>, Opt(inter, TRUE)) /\ orig' = w
-          /\ done' = <<>> /\ eatenb' = <<>> /\ unl' = 0 /\ last' = "Reset" /\ nops' = 1
+          /\ done' = <<>> /\ eatenb' = <<>> /\ unl' = 0 /\ lbase' = 1 /\ last' = "Reset" /\ nops' = 1
 MCall == Call /\ Keep /\ last' = "Call" /\ nops' = nops
 MRead == \E k \in 0..2 : Read(k) /\ Keep /\ last' = "Read" /\ nops' = nops
 MMatch == \E r \in 1..NRules, h \in 0..4 : Match(r, h) /\ last' = "Match" /\ nops' = nops
             /\ (IF r = NRules THEN done' = done \o SubSeq(buf, 1, h) ELSE done' = done)
-            /\ UNCHANGED <<orig, eatenb, unl>>
+            /\ UNCHANGED <<orig, eatenb, unl, lbase>>
 MReject == nops < MaxOps /\ Reject /\ Keep /\ G("Reject")
 MAgain == \E r \in 1..NRules, h \in 0..4 : MatchAgain(r, h) /\ last' = "MatchAgain" /\ nops' = nops
             /\ (IF r = NRules THEN done' = done \o SubSeq(buf0, 1, h) ELSE done' = done)
-            /\ UNCHANGED <<orig, eatenb, unl>>
+            /\ UNCHANGED <<orig, eatenb, unl, lbase>>
 MEnd == /\ (ActEnd \/ Return) /\ last' = "End" /\ nops' = nops
-        /\ done' = done \o New(text) \o eatenb /\ eatenb' = <<>> /\ UNCHANGED <<orig, unl>>
+        /\ done' = done \o New(text) \o eatenb /\ eatenb' = <<>> /\ UNCHANGED <<orig, unl, lbase>>
 MLess == nops < MaxOps /\ eatenb = <<>> /\ \E n \in 0..3 : n >= Len(pfx) /\ Less(n) /\ Keep /\ G("Less")
 MMore == nops < MaxOps /\ ~more /\ More /\ Keep /\ G("More")
 MUnput == /\ nops < MaxOps /\ \E c \in {A, NL} : /\ Unput(c) /\ G("Unput")
                                                    /\ orig' = SubSeq(orig, 1, Len(done) + Len(New(text)) + Len(eatenb)) \o <<c>>
                                                               \o SubSeq(orig, Len(done) + Len(New(text)) + Len(eatenb) + 1, Len(orig))
                                                    /\ unl' = unl + (IF c = NL THEN 1 ELSE 0)
-          /\ UNCHANGED <<done, eatenb>>
-MInput == /\ nops < MaxOps /\ buf # <<>> /\ Input(buf[1]) /\ eatenb' = Append(eatenb, buf[1]) /\ G("Input") /\ UNCHANGED <<orig, done, unl>>
+          /\ UNCHANGED <<done, eatenb, lbase>>
+MInput == /\ nops < MaxOps /\ buf # <<>> /\ Input(buf[1]) /\ eatenb' = Append(eatenb, buf[1]) /\ G("Input") /\ UNCHANGED <<orig, done, unl, lbase>>
 MBegin == nops < MaxOps /\ phase = "act" /\ \E s \in 0..1 : Begin(s) /\ Keep /\ G("Begin")
 MPush == nops < MaxOps /\ phase = "act" /\ \E s \in 0..1 : Push(s) /\ Keep /\ G("Push")
 MPop == nops < MaxOps /\ phase = "act" /\ Pop /\ Keep /\ G("Pop")
+\* the user sets the line number in an action; counting goes on from there (stated with the ghost variables only)
+MSetLineno == /\ nops < MaxOps /\ phase = "act" /\ SetLineno(7) /\ G("SetLineno")
+              /\ lbase' = 7 - (CountNL(done \o New(text) \o eatenb) - unl)
+              /\ UNCHANGED <<orig, done, eatenb, unl>>
 MEof == \E k \in 0..1 : AtEof(k) /\ Keep /\ last' = "Eof" /\ nops' = nops
 \* a second, in-memory buffer: scanned in the middle of the file; then back to the first one
 MScan == nops < MaxOps /\ phase = "act" /\ cur = 1 /\ ScanMem(2, <<B, A>>) /\ G("ScanMem")
          /\ orig' = SubSeq(orig, 1, Len(done) + Len(New(text)) + Len(eatenb)) \o <<B, A>> \o SubSeq(orig, Len(done) + Len(New(text)) + Len(eatenb) + 1, Len(orig))
-         /\ UNCHANGED <<done, eatenb, unl>>
+         /\ UNCHANGED <<done, eatenb, unl, lbase>>
 MPopBuf == phase \in {"act", "done"} /\ cur = 2 /\ buf = <<>> /\ SwitchTo(1) /\ Keep /\ last' = "SwitchBack" /\ nops' = nops
 
 MNext == MStart \/ MCall \/ MRead \/ MMatch \/ MReject \/ MAgain \/ MEnd \/ MLess \/ MMore \/ MUnput \/ MInput
-         \/ MBegin \/ MPush \/ MPop \/ MEof \/ MScan \/ MPopBuf
+         \/ MSetLineno \/ MBegin \/ MPush \/ MPop \/ MEof \/ MScan \/ MPopBuf
 MSpec == MInit /\ [][MNext]_allvars
 
-MView == <<svars, orig, done, eatenb, unl, last>>      \* nops is a bound, hist a log
+MView == <<svars, orig, done, eatenb, unl, lbase, last>>      \* nops is a bound, hist a log
 
 -----------------------------------------------------------------------------
 \* the unread rest of the stream: pending text of the current buffer, then what the buffers
@@ -112,7 +118,7 @@ Conservation ==
      done \o CurNew \o eatenb \o Pending = orig
 
 LinenoExact ==
-  (last # "init" /\ phase # "fatal") => lineno = 1 + CountNL(done \o CurNew \o eatenb) - unl
+  (last # "init" /\ phase # "fatal") => lineno = lbase + CountNL(done \o CurNew \o eatenb) - unl
 
 \* declarative: the selected text is a longest match, of the first rule that has one
 Longest(w, b, r, n) ==
@@ -133,7 +139,7 @@ ScOnly == [][sc' # sc => last' \in {"Begin", "Push", "Pop", "Reset"}]_allvars
 StackLIFO == [][(last' = "Push") => (stk' = Append(stk, sc)) /\ ((last' = "Pop") => (stk = Append(stk', sc')))]_allvars
 \* (per buffer: the in-memory buffer reaches its own end while the file buffer still holds text)
 EofOnlyAtEnd == last = "Eof" => (buf = <<>> /\ (cur = 1 => orig = done))
-Isolation == [][(last' \in {"Less", "More", "Unput", "Input", "Match", "MatchAgain", "Read", "End", "Begin", "Push", "Pop"}) => saved' = saved]_allvars
+Isolation == [][(last' \in {"Less", "More", "Unput", "Input", "Match", "MatchAgain", "Read", "End", "Begin", "Push", "Pop", "SetLineno"}) => saved' = saved]_allvars
 
 Bound == nops <= MaxOps
 =============================================================================
